@@ -1,13 +1,19 @@
 import Gimli.Spec.Cfi
 import Gimli.Lemmas.Cfi
+import Gimli.Lemmas.CfiEntry
 import Gimli.Lemmas.Leb
 import Gimli.Lemmas.Ints
 /-!
-# `Cfi.parse` accepts every encoding the Spec describes (C06)
+# `Cfi.parse` accepts exactly the encodings the Spec describes (C06)
 
-`parse_encodes`: for every instruction `i` and every byte string `bs` with `Spec.Cfi.Encodes … i bs`,
-`parse` on `bs ++ rest` returns exactly `(i, rest)`.
+* `parse_encodes`: for every instruction `i` and every byte string `bs` with `Spec.Cfi.Encodes c pos i bs`,
+  `parse c pos (bs ++ rest)` returns exactly `(i, rest)`;
+* `parse_sound`: whatever `parse` accepts is such an encoding;
+* `parseEncodedPointerDirect_eq`: the pointer decoding of `DW_CFA_set_loc` inside `Cfi.parse` *is* C05's
+  Model of `parse_encoded_pointer` (`CfiEntry.parseEncodedPointer`), so C05's `pep_semantics`
+  (`encoded_pointer_decode`) gives its meaning.
 -/
+set_option linter.unusedSimpArgs false
 namespace Gimli.Spec.Cfi
 open Gimli Gimli.Cfi Gimli.Spec
 
@@ -42,68 +48,6 @@ theorem block_read {ex bs : Bytes} (h : Block ex bs) (rest : Bytes) :
   unfold readExpr
   rw [hb, List.append_assoc, uleb_read hl (ex ++ rest)]
   simp
-
-/-- the decoding context that corresponds to the parameters of `Encodes` -/
-def cfgOf (m : Mode) (e : Endian) (asz : Nat) (aarch64 : Bool) (p : PtrParams) : DecodeCfg :=
-  { mode := m, endian := e, addressEncoding := none, params := { p with addressSize := asz },
-    vendor := if aarch64 then .aarch64 else .default }
-
-theorem parse_encodes {m : Mode} {e : Endian} {asz : Nat} {aarch64 : Bool} {p : PtrParams} {i : Instr} {bs : Bytes}
-    (h : Encodes e asz aarch64 i bs) (pos : Nat) (rest : Bytes) :
-    parse (cfgOf m e asz aarch64 p) pos (bs ++ rest) = .ok (i, rest) := by
-  cases h with
-  | advanceLoc d hd =>
-    have h1 : (UInt8.ofNat (0x40 + d)).toNat = 0x40 + d := by
-      simp only [UInt8.toNat_ofNat']; omega
-    simp only [List.cons_append, List.nil_append, parse, h1]
-    have : (0x40 + d) / 64 = 1 := by omega
-    have h2 : (0x40 + d) % 64 = d := by omega
-    simp [this, h2]
-  | offset r o bo hr ho =>
-    have h1 : (UInt8.ofNat (0x80 + r.toNat)).toNat = 0x80 + r.toNat := by
-      simp only [UInt8.toNat_ofNat']; omega
-    simp only [List.cons_append, parse, h1]
-    have h2 : (0x80 + r.toNat) / 64 = 2 := by omega
-    have h3 : UInt16.ofNat ((0x80 + r.toNat) % 64) = r := by
-      have : (0x80 + r.toNat) % 64 = r.toNat := by omega
-      rw [this]; simp
-    simp [h2, h3, uleb_read ho]
-  | restore r hr =>
-    have h1 : (UInt8.ofNat (0xc0 + r.toNat)).toNat = 0xc0 + r.toNat := by
-      simp only [UInt8.toNat_ofNat']; omega
-    simp only [List.cons_append, List.nil_append, parse, h1]
-    have h2 : (0xc0 + r.toNat) / 64 = 3 := by omega
-    have h3 : UInt16.ofNat ((0xc0 + r.toNat) % 64) = r := by
-      have : (0xc0 + r.toNat) % 64 = r.toNat := by omega
-      rw [this]; simp
-    simp [h2, h3]
-  | nop => simp [parse]
-  | setLoc a ba hsz ha =>
-    have := fixed_read ha rest
-    simp [parse, cfgOf, Ints.readAddress, hsz, this]
-  | advanceLoc1 d bd hd => simp [parse, cfgOf, fixed_read hd]
-  | advanceLoc2 d bd hd => simp [parse, cfgOf, fixed_read hd]
-  | advanceLoc4 d bd hd => simp [parse, cfgOf, fixed_read hd]
-  | offsetExtended r o br bo hr ho => simp [parse, reg_read hr, uleb_read ho]
-  | restoreExtended r br hr => simp [parse, reg_read hr]
-  | undefined r br hr => simp [parse, reg_read hr]
-  | sameValue r br hr => simp [parse, reg_read hr]
-  | register d s bd bs hd hs => simp [parse, reg_read hd, reg_read hs]
-  | rememberState => simp [parse]
-  | restoreState => simp [parse]
-  | defCfa r o br bo hr ho => simp [parse, reg_read hr, uleb_read ho]
-  | defCfaRegister r br hr => simp [parse, reg_read hr]
-  | defCfaOffset o bo ho => simp [parse, uleb_read ho]
-  | defCfaExpression ex bx hx => simp [parse, block_read hx]
-  | expression r ex br bx hr hx => simp [parse, reg_read hr, block_read hx]
-  | valOffset r o br bo hr ho => simp [parse, reg_read hr, uleb_read ho]
-  | offsetExtendedSf r o br bo hr ho => simp [parse, reg_read hr, sleb_read ho]
-  | defCfaSf r o br bo hr ho => simp [parse, reg_read hr, sleb_read ho]
-  | defCfaOffsetSf o bo ho => simp [parse, sleb_read ho]
-  | valOffsetSf r o br bo hr ho => simp [parse, reg_read hr, sleb_read ho]
-  | valExpression r ex br bx hr hx => simp [parse, reg_read hr, block_read hx]
-  | argsSize n bn hn => simp [parse, uleb_read hn]
-  | negateRaState ha => simp [parse, cfgOf, ha]
 
 theorem leBytes_leVal (bs : Bytes) : Ints.leBytes bs.length (Ints.leVal bs) = bs := by
   induction bs with
@@ -197,6 +141,379 @@ theorem exists_cons {x : UInt8} {tl pre rest : Bytes} {P : Bytes → Prop} (h1 :
     (h2 : P (x :: pre)) : ∃ p, x :: tl = p ++ rest ∧ P p :=
   ⟨x :: pre, by simp [h1], h2⟩
 
+theorem valid_iff (b : Nat) : CfiEntry.isValidEncoding b = true ↔ Frame.validEncoding b := by
+  unfold CfiEntry.isValidEncoding CfiEntry.peAbsent CfiEntry.peFormat CfiEntry.peApplication
+    Frame.validEncoding Frame.formatDefined Frame.applicationDefined
+  by_cases h : b = 0xff
+  · simp [h]
+  · simp only [h, decide_false, Bool.false_eq_true, if_false, false_or]
+    have : b % 128 / 16 * 16 = b / 16 % 8 * 16 := by omega
+    rw [this]
+    split
+    · rename_i h1; simp only [Bool.false_eq_true, false_iff, not_and]; intro h2; exact absurd h2 h1
+    · rename_i h1
+      split
+      · rename_i h2; simp only [Bool.false_eq_true, false_iff, not_and]; intro _ h3; exact absurd h3 h2
+      · rename_i h2
+        simp only [true_iff]
+        exact ⟨Classical.not_not.mp h1, Classical.not_not.mp h2⟩
+
+theorem ehPeValid_eq (b : Nat) : ehPeValid b = CfiEntry.isValidEncoding b := by
+  unfold ehPeValid CfiEntry.isValidEncoding CfiEntry.peAbsent CfiEntry.peFormat CfiEntry.peApplication
+  by_cases h : b = 0xff
+  · simp [h]
+  · simp only [h, if_false, decide_false, Bool.false_eq_true]
+    by_cases hf : (b % 16 = 0 ∨ b % 16 = 1 ∨ b % 16 = 2 ∨ b % 16 = 3 ∨ b % 16 = 4 ∨ b % 16 = 9 ∨ b % 16 = 10 ∨ b % 16 = 11 ∨ b % 16 = 12)
+    · by_cases ha : b / 16 % 8 ≤ 5
+      · have ha' : (b % 128 / 16 * 16 = 0 ∨ b % 128 / 16 * 16 = 0x10 ∨ b % 128 / 16 * 16 = 0x20 ∨ b % 128 / 16 * 16 = 0x30 ∨
+            b % 128 / 16 * 16 = 0x40 ∨ b % 128 / 16 * 16 = 0x50) := by omega
+        simp [hf, ha, ha']
+      · have ha' : ¬ (b % 128 / 16 * 16 = 0 ∨ b % 128 / 16 * 16 = 0x10 ∨ b % 128 / 16 * 16 = 0x20 ∨ b % 128 / 16 * 16 = 0x30 ∨
+            b % 128 / 16 * 16 = 0x40 ∨ b % 128 / 16 * 16 = 0x50) := by omega
+        simp [hf, ha, ha']
+    · simp [hf]
+
+theorem shr_ones : ∀ sh : Fin 64, (2 ^ 64 - 1) >>> sh.val = 2 ^ (64 - sh.val) - 1 := by decide +kernel
+
+theorem wrappingAddSized_eq (m : Mode) (a l s : Nat) :
+    Cfi.wrappingAddSized m a l s = CfiEntry.wrappingAddSized m a l s := by
+  unfold Cfi.wrappingAddSized Cfi.onesSized CfiEntry.wrappingAddSized
+  by_cases hs : 1 ≤ s ∧ s ≤ 8
+  · have hpos : 0 < 2 ^ (8 * s) := Nat.pow_pos (by omega)
+    simp only [hs, and_self, if_true, Out.bind_ok, Out.pure_eq]
+    rw [Nat.sub_add_cancel hpos]
+  · simp only [hs, if_false]
+    cases m with
+    | debug =>
+      simp only
+      by_cases h0 : s = 0
+      · simp [h0]
+      · by_cases h1 : s * 8 > 255
+        · simp [h0, h1]
+        · have h2 : s * 8 > 64 := by omega
+          simp [h0, h1, h2]
+    | release =>
+      simp only [Out.bind_ok, Out.pure_eq]
+      have hlt : ((64 + 256 - (s * 8) % 256) % 256) % 64 < 64 := Nat.mod_lt _ (by decide)
+      have := shr_ones ⟨_, hlt⟩
+      simp only at this
+      rw [this]
+      have hpos : 0 < 2 ^ (64 - ((64 + 256 - (s * 8) % 256) % 256) % 64) := Nat.pow_pos (by decide)
+      rw [Nat.sub_add_cancel hpos, Nat.and_two_pow_sub_one_eq_mod]
+
+
+/-- forget the section offset of a positioned reader result -/
+def dropOff {α : Type} (x : Out (α × CfiEntry.Rd)) : Out (α × Bytes) := x.map (fun y => (y.1, y.2.bs))
+
+theorem dropOff_lift {α : Type} (f : Bytes → Out (α × Bytes)) (r : CfiEntry.Rd) :
+    dropOff (r.lift f) = f r.bs := by
+  unfold dropOff CfiEntry.Rd.lift
+  cases h : f r.bs with
+  | ok p => obtain ⟨a, rest⟩ := p; simp [Out.map]
+  | err e => simp [Out.map]
+  | panic w => simp [Out.map]
+  | diverge => simp [Out.map]
+
+theorem dropOff_lift_bind {α β : Type} (f : Bytes → Out (α × Bytes)) (g : α → β) (r : CfiEntry.Rd) :
+    dropOff (r.lift f >>= fun x => pure (g x.1, x.2)) = (f r.bs >>= fun x => pure (g x.1, x.2)) := by
+  unfold dropOff CfiEntry.Rd.lift
+  cases h : f r.bs with
+  | ok p => obtain ⟨a, rest⟩ := p; simp [Out.map]
+  | err e => simp [Out.map]
+  | panic w => simp [Out.map]
+  | diverge => simp [Out.map]
+
+theorem parseEncodedValue_eq (e : Endian) (enc asz : Nat) (r : CfiEntry.Rd) :
+    dropOff (CfiEntry.parseEncodedValue e enc asz r) = Cfi.parseEncodedValue e enc asz r.bs := by
+  unfold CfiEntry.parseEncodedValue Cfi.parseEncodedValue CfiEntry.peFormat CfiEntry.sext
+  simp only
+  generalize enc % 16 = f
+  by_cases h0 : f = 0
+  · subst h0; simp only [if_true]; exact dropOff_lift _ _
+  by_cases h1 : f = 1
+  · subst h1; simp; exact dropOff_lift _ _
+  by_cases h2 : f = 2
+  · subst h2; simp; exact dropOff_lift _ _
+  by_cases h3 : f = 3
+  · subst h3; simp; exact dropOff_lift _ _
+  by_cases h4 : f = 4
+  · subst h4; simp; exact dropOff_lift _ _
+  by_cases h9 : f = 9
+  · subst h9; simp; exact dropOff_lift_bind Leb.signed Leb.ofI64 r
+  by_cases h10 : f = 10
+  · subst h10; simp; exact dropOff_lift_bind (Ints.readFixed e 2) (fun v => Leb.ofI64 (Ints.toSigned 2 v)) r
+  by_cases h11 : f = 11
+  · subst h11; simp; exact dropOff_lift_bind (Ints.readFixed e 4) (fun v => Leb.ofI64 (Ints.toSigned 4 v)) r
+  by_cases h12 : f = 12
+  · subst h12; simp; exact dropOff_lift_bind (Ints.readFixed e 8) (fun v => Leb.ofI64 (Ints.toSigned 8 v)) r
+  simp only [h0, h1, h2, h3, h4, h9, h10, h11, h12, if_false]
+  simp [dropOff, Out.map]
+
+
+/-- C05's parameters for mine -/
+theorem peParams_asz (c : DecodeCfg) : (peParams c).asz = c.params.addressSize := rfl
+
+theorem pointerBase_eq (m : Mode) (enc : Nat) (c : DecodeCfg) (off : Nat) (hv : CfiEntry.isValidEncoding enc = true)
+    (ho : enc ≠ 0xff) :
+    Cfi.pointerBase m enc c.params off = CfiEntry.pointerBase m enc (peParams c) off := by
+  obtain ⟨_, ha⟩ := CfiEntry.validFormat hv ho
+  simp only [CfiEntry.peApplication] at ha
+  unfold Cfi.pointerBase CfiEntry.pointerBase CfiEntry.peApplication peParams
+  simp only
+  have hk : enc / 16 % 8 = enc % 128 / 16 := by omega
+  rw [hk]
+  generalize enc % 128 / 16 = k at ha
+  have : k = 0 ∨ k = 1 ∨ k = 2 ∨ k = 3 ∨ k = 4 ∨ k = 5 := by omega
+  rcases this with h | h | h | h | h | h <;> subst h <;> simp [wrappingAddSized_eq]
+  · cases c.params.sectionBase <;> rfl
+  · cases c.params.textBase <;> rfl
+  · cases c.params.dataBase <;> rfl
+
+
+theorem dropOff_cases {α : Type} {x : Out (α × CfiEntry.Rd)} {y : Out (α × Bytes)} (h : dropOff x = y) :
+    (∃ a r, x = .ok (a, r) ∧ y = .ok (a, r.bs)) ∨ (∃ e, x = .err e ∧ y = .err e) ∨
+    (∃ w, x = .panic w ∧ y = .panic w) ∨ (x = .diverge ∧ y = .diverge) := by
+  cases x with
+  | ok p => obtain ⟨a, r⟩ := p; exact Or.inl ⟨a, r, rfl, h.symm⟩
+  | err e => exact Or.inr (Or.inl ⟨e, rfl, h.symm⟩)
+  | panic w => exact Or.inr (Or.inr (Or.inl ⟨w, rfl, h.symm⟩))
+  | diverge => exact Or.inr (Or.inr (Or.inr ⟨rfl, h.symm⟩))
+
+/-- **The set_loc operand is C05's `parse_encoded_pointer`**: the pointer decoding inside the
+Model of `CallFrameInstruction::parse` equals C05's Model of `parse_encoded_pointer` (run at the
+operand's section offset with the iterator's parameters) followed by `Pointer::direct` -/
+theorem parseEncodedPointerDirect_eq (m : Mode) (e : Endian) (enc : Nat) (c : DecodeCfg) (pos : Nat) (bs : Bytes) :
+    Cfi.parseEncodedPointerDirect m e enc c.params pos bs =
+      (CfiEntry.parseEncodedPointer m e enc (peParams c) ⟨pos, bs⟩ >>= fun x =>
+        x.1.toDirect >>= fun a => pure (a, x.2.bs)) := by
+  unfold Cfi.parseEncodedPointerDirect Cfi.parseEncodedPointer CfiEntry.parseEncodedPointer
+  rw [ehPeValid_eq]
+  by_cases hv : CfiEntry.isValidEncoding enc = true
+  · by_cases ho : enc = 0xff
+    · subst ho; simp [hv]
+    · simp only [hv, Bool.not_true, Bool.false_eq_true, if_false, ho, not_true_eq_false]
+      rw [pointerBase_eq m enc c pos hv ho]
+      cases hb : CfiEntry.pointerBase m enc (peParams c) pos with
+      | ok base =>
+        simp only [Out.bind_ok]
+        have hpv := parseEncodedValue_eq e enc c.params.addressSize ⟨pos, bs⟩
+        rcases dropOff_cases hpv with ⟨x, r', h1, h2⟩ | ⟨e', h1, h2⟩ | ⟨w, h1, h2⟩ | ⟨h1, h2⟩
+        · simp only at h2
+          simp only [peParams_asz, h1, h2, Out.bind_ok, wrappingAddSized_eq]
+          cases hw : CfiEntry.wrappingAddSized m base x c.params.addressSize with
+          | ok v =>
+            simp only [Out.bind_ok, Out.pure_eq, CfiEntry.Ptr.new, CfiEntry.peIndirect]
+            by_cases hi : 128 ≤ enc % 256
+            · have : enc / 128 % 2 = 1 := by omega
+              simp [hi, this, CfiEntry.Ptr.toDirect]
+            · have : ¬ enc / 128 % 2 = 1 := by omega
+              simp [hi, this, CfiEntry.Ptr.toDirect]
+          | err e' => simp
+          | panic w => simp
+          | diverge => simp
+        · simp only at h2; simp [peParams_asz, h1, h2]
+        · simp only at h2; simp [peParams_asz, h1, h2]
+        · simp only at h2; simp [peParams_asz, h1, h2]
+      | err e' => simp
+      | panic w => simp
+      | diverge => simp
+  · simp [hv]
+
+theorem sext_eq (n v : Nat) (hn : n = 2 ∨ n = 4 ∨ n = 8) (hv : v < 256 ^ n) :
+    Leb.ofI64 (Ints.toSigned n v) = signExtend n v := by
+  unfold Leb.ofI64 Ints.toSigned signExtend
+  rcases hn with h | h | h <;> subst h <;> simp only [Nat.reducePow, Nat.reduceMul, Nat.reduceSub] at hv ⊢ <;>
+    (split <;> split <;> omega)
+
+
+/-! ### the operand of an encoded pointer -/
+
+theorem operand_read {e : Endian} {asz enc x : Nat} {bx : Bytes} (h : Operand e asz enc x bx) (rest : Bytes) :
+    Cfi.parseEncodedValue e enc asz (bx ++ rest) = .ok (x, rest) := by
+  unfold Cfi.parseEncodedValue
+  cases h with
+  | absptr x bs hf hsz hx => simp [hf, Ints.readAddress, hsz, fixed_read hx]
+  | uleb128 x bs hf hx => simp [hf, uleb_read hx]
+  | udata2 x bs hf hx => simp [hf, fixed_read hx]
+  | udata4 x bs hf hx => simp [hf, fixed_read hx]
+  | udata8 x bs hf hx => simp [hf, fixed_read hx]
+  | sleb128 v bs hf hx => simp [hf, sleb_read hx, Leb.ofI64, pattern64]
+  | sdata2 v bs hf hx => simp [hf, fixed_read hx, sext_eq 2 v (by simp) hx.2]
+  | sdata4 v bs hf hx => simp [hf, fixed_read hx, sext_eq 4 v (by simp) hx.2]
+  | sdata8 v bs hf hx => simp [hf, fixed_read hx, sext_eq 8 v (by simp) hx.2]
+
+theorem operand_sound {e : Endian} {asz enc x : Nat} {bs rest : Bytes}
+    (h : Cfi.parseEncodedValue e enc asz bs = .ok (x, rest)) :
+    ∃ bx, bs = bx ++ rest ∧ Operand e asz enc x bx := by
+  unfold Cfi.parseEncodedValue at h
+  simp only at h
+  split at h
+  · rename_i hf
+    obtain ⟨pre, hp, hsz, hx⟩ := address_sound h
+    exact ⟨pre, hp, .absptr x pre hf hsz hx⟩
+  · rename_i hf
+    obtain ⟨pre, hp, hx⟩ := uleb_sound h
+    exact ⟨pre, hp, .uleb128 x pre hf hx⟩
+  · rename_i hf
+    obtain ⟨pre, hp, hx⟩ := fixed_sound h
+    exact ⟨pre, hp, .udata2 x pre hf hx⟩
+  · rename_i hf
+    obtain ⟨pre, hp, hx⟩ := fixed_sound h
+    exact ⟨pre, hp, .udata4 x pre hf hx⟩
+  · rename_i hf
+    obtain ⟨pre, hp, hx⟩ := fixed_sound h
+    exact ⟨pre, hp, .udata8 x pre hf hx⟩
+  · rename_i hf
+    obtain ⟨⟨v, r1⟩, h1, h2⟩ := bind_eq_ok h
+    cases h2
+    obtain ⟨pre, hp, hx⟩ := sleb_sound h1
+    exact ⟨pre, hp, .sleb128 v pre hf hx⟩
+  · rename_i hf
+    obtain ⟨⟨v, r1⟩, h1, h2⟩ := bind_eq_ok h
+    cases h2
+    obtain ⟨pre, hp, hx⟩ := fixed_sound h1
+    rw [sext_eq 2 v (by simp) hx.2]
+    exact ⟨pre, hp, .sdata2 v pre hf hx⟩
+  · rename_i hf
+    obtain ⟨⟨v, r1⟩, h1, h2⟩ := bind_eq_ok h
+    cases h2
+    obtain ⟨pre, hp, hx⟩ := fixed_sound h1
+    rw [sext_eq 4 v (by simp) hx.2]
+    exact ⟨pre, hp, .sdata4 v pre hf hx⟩
+  · rename_i hf
+    obtain ⟨⟨v, r1⟩, h1, h2⟩ := bind_eq_ok h
+    cases h2
+    obtain ⟨pre, hp, hx⟩ := fixed_sound h1
+    rw [sext_eq 8 v (by simp) hx.2]
+    exact ⟨pre, hp, .sdata8 v pre hf hx⟩
+  · cases h
+
+/-! ### `DW_CFA_set_loc` under a pointer encoding, through C05's Model and Spec -/
+
+theorem setloc_ptr_read {c : DecodeCfg} {pos enc b x : Nat} {bx rest : Bytes}
+    (hvalid : Frame.validEncoding enc) (ho : enc ≠ 0xff) (hal : CfiEntry.peApplication enc ≠ 0x50)
+    (hind : CfiEntry.peIndirect enc = false) (hsz : 1 ≤ c.params.addressSize ∧ c.params.addressSize ≤ 8)
+    (hb : Frame.neededBase enc (peParams c) (pos + 1) = some b)
+    (hop : Operand c.endian c.params.addressSize enc x bx) :
+    Cfi.parseEncodedPointerDirect c.mode c.endian enc c.params (pos + 1) (bx ++ rest) =
+      .ok ((b + x) % 2 ^ 64 % 2 ^ (8 * c.params.addressSize), rest) := by
+  have hv := (valid_iff enc).mpr hvalid
+  rw [parseEncodedPointerDirect_eq,
+    CfiEntry.pep_semantics c.mode c.endian enc (peParams c) ⟨pos + 1, bx ++ rest⟩ hv ho hal hsz.1 hsz.2]
+  simp only [hb, peParams_asz]
+  have hmine := operand_read hop rest
+  have hpv := parseEncodedValue_eq c.endian enc c.params.addressSize ⟨pos + 1, bx ++ rest⟩
+  rw [hmine] at hpv
+  rcases dropOff_cases hpv with ⟨x', r', h1, h2⟩ | ⟨e', _, h2⟩ | ⟨w, _, h2⟩ | ⟨_, h2⟩
+  · simp only [Out.ok.injEq, Prod.mk.injEq] at h2
+    obtain ⟨e1, e2⟩ := h2
+    subst e1
+    simp only [h1, Out.bind_ok, Out.pure_eq, CfiEntry.Ptr.new, hind, Bool.false_eq_true, if_false,
+      CfiEntry.Ptr.toDirect, ← e2]
+  · cases h2
+  · cases h2
+  · cases h2
+
+theorem setloc_ptr_sound {c : DecodeCfg} {pos enc a : Nat} {tl rest : Bytes}
+    (hsz : 1 ≤ c.params.addressSize ∧ c.params.addressSize ≤ 8)
+    (h : Cfi.parseEncodedPointerDirect c.mode c.endian enc c.params (pos + 1) tl = .ok (a, rest)) :
+    ∃ b x bx, tl = bx ++ rest ∧ Frame.validEncoding enc ∧ enc ≠ 0xff ∧ CfiEntry.peApplication enc ≠ 0x50 ∧
+      CfiEntry.peIndirect enc = false ∧ Frame.neededBase enc (peParams c) (pos + 1) = some b ∧
+      Operand c.endian c.params.addressSize enc x bx ∧
+      a = (b + x) % 2 ^ 64 % 2 ^ (8 * c.params.addressSize) := by
+  rw [parseEncodedPointerDirect_eq] at h
+  by_cases hv : CfiEntry.isValidEncoding enc = true
+  · by_cases ho : enc = 0xff
+    · subst ho; simp [CfiEntry.parseEncodedPointer, hv] at h
+    · by_cases hal : CfiEntry.peApplication enc = 0x50
+      · simp [CfiEntry.parseEncodedPointer, CfiEntry.pointerBase, hv, ho, hal] at h
+      · rw [CfiEntry.pep_semantics c.mode c.endian enc (peParams c) ⟨pos + 1, tl⟩ hv ho hal hsz.1 hsz.2] at h
+        simp only at h
+        cases hb : Frame.neededBase enc (peParams c) (pos + 1) with
+        | none => rw [hb] at h; simp at h
+        | some b =>
+          rw [hb] at h
+          simp only [peParams_asz] at h
+          have hpv := parseEncodedValue_eq c.endian enc c.params.addressSize ⟨pos + 1, tl⟩
+          rcases dropOff_cases hpv with ⟨x, r', h1, h2⟩ | ⟨e', h1, _⟩ | ⟨w, h1, _⟩ | ⟨h1, _⟩
+          · rw [h1] at h
+            simp only [Out.bind_ok, Out.pure_eq, CfiEntry.Ptr.new] at h
+            by_cases hi : CfiEntry.peIndirect enc = true
+            · simp [hi, CfiEntry.Ptr.toDirect] at h
+            · have hi' : CfiEntry.peIndirect enc = false := by simpa using hi
+              simp only [hi', Bool.false_eq_true, if_false, CfiEntry.Ptr.toDirect, Out.bind_ok, Out.ok.injEq,
+                Prod.mk.injEq] at h
+              obtain ⟨ea, er⟩ := h
+              obtain ⟨bx, hbx, hop⟩ := operand_sound h2
+              simp only at hbx
+              rw [er] at hbx
+              exact ⟨b, x, bx, hbx, (valid_iff enc).mp hv, ho, hal, hi', rfl, hop, ea.symm⟩
+          · rw [h1] at h; simp at h
+          · rw [h1] at h; simp at h
+          · rw [h1] at h; simp at h
+  · simp [CfiEntry.parseEncodedPointer, hv] at h
+
+theorem parse_encodes {c : DecodeCfg} {pos : Nat} {i : Instr} {bs : Bytes}
+    (h : Encodes c pos i bs) (rest : Bytes) :
+    parse c pos (bs ++ rest) = .ok (i, rest) := by
+  cases h with
+  | advanceLoc d hd =>
+    have h1 : (UInt8.ofNat (0x40 + d)).toNat = 0x40 + d := by
+      simp only [UInt8.toNat_ofNat']; omega
+    simp only [List.cons_append, List.nil_append, parse, h1]
+    have : (0x40 + d) / 64 = 1 := by omega
+    have h2 : (0x40 + d) % 64 = d := by omega
+    simp [this, h2]
+  | offset r o bo hr ho =>
+    have h1 : (UInt8.ofNat (0x80 + r.toNat)).toNat = 0x80 + r.toNat := by
+      simp only [UInt8.toNat_ofNat']; omega
+    simp only [List.cons_append, parse, h1]
+    have h2 : (0x80 + r.toNat) / 64 = 2 := by omega
+    have h3 : UInt16.ofNat ((0x80 + r.toNat) % 64) = r := by
+      have : (0x80 + r.toNat) % 64 = r.toNat := by omega
+      rw [this]; simp
+    simp [h2, h3, uleb_read ho]
+  | restore r hr =>
+    have h1 : (UInt8.ofNat (0xc0 + r.toNat)).toNat = 0xc0 + r.toNat := by
+      simp only [UInt8.toNat_ofNat']; omega
+    simp only [List.cons_append, List.nil_append, parse, h1]
+    have h2 : (0xc0 + r.toNat) / 64 = 3 := by omega
+    have h3 : UInt16.ofNat ((0xc0 + r.toNat) % 64) = r := by
+      have : (0xc0 + r.toNat) % 64 = r.toNat := by omega
+      rw [this]; simp
+    simp [h2, h3]
+  | nop => simp [parse]
+  | setLoc a ba hnone hsz ha =>
+    have := fixed_read ha rest
+    simp [parse, hnone, Ints.readAddress, hsz, this]
+  | setLocEncoded enc b x bx henc hvalid ho hal hind hsz hb hop =>
+    have := setloc_ptr_read (rest := rest) hvalid ho hal hind hsz hb hop
+    simp [parse, henc, this]
+  | advanceLoc1 d bd hd => simp [parse, fixed_read hd]
+  | advanceLoc2 d bd hd => simp [parse, fixed_read hd]
+  | advanceLoc4 d bd hd => simp [parse, fixed_read hd]
+  | offsetExtended r o br bo hr ho => simp [parse, reg_read hr, uleb_read ho]
+  | restoreExtended r br hr => simp [parse, reg_read hr]
+  | undefined r br hr => simp [parse, reg_read hr]
+  | sameValue r br hr => simp [parse, reg_read hr]
+  | register d s bd bs hd hs => simp [parse, reg_read hd, reg_read hs]
+  | rememberState => simp [parse]
+  | restoreState => simp [parse]
+  | defCfa r o br bo hr ho => simp [parse, reg_read hr, uleb_read ho]
+  | defCfaRegister r br hr => simp [parse, reg_read hr]
+  | defCfaOffset o bo ho => simp [parse, uleb_read ho]
+  | defCfaExpression ex bx hx => simp [parse, block_read hx]
+  | expression r ex br bx hr hx => simp [parse, reg_read hr, block_read hx]
+  | valOffset r o br bo hr ho => simp [parse, reg_read hr, uleb_read ho]
+  | offsetExtendedSf r o br bo hr ho => simp [parse, reg_read hr, sleb_read ho]
+  | defCfaSf r o br bo hr ho => simp [parse, reg_read hr, sleb_read ho]
+  | defCfaOffsetSf o bo ho => simp [parse, sleb_read ho]
+  | valOffsetSf r o br bo hr ho => simp [parse, reg_read hr, sleb_read ho]
+  | valExpression r ex br bx hr hx => simp [parse, reg_read hr, block_read hx]
+  | argsSize n bn hn => simp [parse, uleb_read hn]
+  | negateRaState ha => simp [parse, ha]
+
+
 macro "sound_of " h:ident : tactic =>
   `(tactic| first
     | exact reg_sound $h
@@ -205,14 +522,14 @@ macro "sound_of " h:ident : tactic =>
     | exact fixed_sound $h
     | exact block_sound $h)
 
-theorem parse_sound {m : Mode} {e : Endian} {asz : Nat} {aarch64 : Bool} {p : PtrParams} {pos : Nat}
-    {bs : Bytes} {i : Instr} {rest : Bytes}
-    (h : parse (cfgOf m e asz aarch64 p) pos bs = .ok (i, rest)) :
-    ∃ pre, bs = pre ++ rest ∧ Encodes e asz aarch64 i pre := by
+theorem parse_sound {c : DecodeCfg} {pos : Nat} {bs : Bytes} {i : Instr} {rest : Bytes}
+    (hsz : c.addressEncoding ≠ none → 1 ≤ c.params.addressSize ∧ c.params.addressSize ≤ 8)
+    (h : parse c pos bs = .ok (i, rest)) :
+    ∃ pre, bs = pre ++ rest ∧ Encodes c pos i pre := by
   cases bs with
   | nil => simp [parse] at h
   | cons b tl =>
-    simp only [parse, cfgOf] at h
+    simp only [parse] at h
     split at h
     · -- DW_CFA_advance_loc
       rename_i h1
@@ -222,7 +539,7 @@ theorem parse_sound {m : Mode} {e : Endian} {asz : Nat} {aarch64 : Bool} {p : Pt
         have : 0x40 + b.toNat % 64 = b.toNat := by omega
         rw [this]; simp
       rw [hb]
-      have := Encodes.advanceLoc (e := e) (asz := asz) (aarch64 := aarch64) (b.toNat % 64) (by omega)
+      have := Encodes.advanceLoc (c := c) (pos := pos) (b.toNat % 64) (by omega)
       simpa using this
     · split at h
       · -- DW_CFA_offset
@@ -238,7 +555,7 @@ theorem parse_sound {m : Mode} {e : Endian} {asz : Nat} {aarch64 : Bool} {p : Pt
           rw [hr]
           have : 0x80 + b.toNat % 64 = b.toNat := by omega
           rw [this]; simp
-        have := Encodes.offset (e := e) (asz := asz) (aarch64 := aarch64) (UInt16.ofNat (b.toNat % 64)) o pre
+        have := Encodes.offset (c := c) (pos := pos) (UInt16.ofNat (b.toNat % 64)) o pre
           (by rw [hr]; omega) hu
         rw [← hb] at this
         exact this
@@ -254,7 +571,7 @@ theorem parse_sound {m : Mode} {e : Endian} {asz : Nat} {aarch64 : Bool} {p : Pt
             have : 0xc0 + b.toNat % 64 = b.toNat := by
               have := b.toNat_lt; omega
             rw [this]; simp
-          have := Encodes.restore (e := e) (asz := asz) (aarch64 := aarch64) (UInt16.ofNat (b.toNat % 64))
+          have := Encodes.restore (c := c) (pos := pos) (UInt16.ofNat (b.toNat % 64))
             (by rw [hr]; omega)
           rw [← hb] at this
           exact this
@@ -271,9 +588,6 @@ theorem parse_sound {m : Mode} {e : Endian} {asz : Nat} {aarch64 : Bool} {p : Pt
                    first
                     | (cases h2
                        first
-                        | (obtain ⟨pre, hp, hsz, he⟩ := address_sound h1
-                           subst hp
-                           exact ⟨_ :: pre, rfl, Encodes.setLoc _ _ hsz he⟩)
                         | (obtain ⟨pre, hp, he⟩ : ∃ pre, tl = pre ++ r1 ∧ _ := by sound_of h1
                            subst hp
                            exact ⟨_ :: pre, rfl, by constructor <;> assumption⟩))
@@ -285,13 +599,101 @@ theorem parse_sound {m : Mode} {e : Endian} {asz : Nat} {aarch64 : Bool} {p : Pt
                            refine exists_cons (pre := pre1 ++ pre2) (by rw [hp1, hp2, List.append_assoc]) ?_
                            constructor <;> assumption)))
                 | skip)
-          -- DW_CFA_AARCH64_negate_ra_state: only for the AArch64 vendor
-          cases aarch64 with
-          | false => simp at h
-          | true =>
-            simp only [if_true, Out.ok.injEq, Prod.mk.injEq] at h
-            obtain ⟨e1, e2⟩ := h
-            subst e1; subst e2
-            exact ⟨[_], rfl, Encodes.negateRaState rfl⟩
+          · -- DW_CFA_set_loc
+            split at h
+            · -- under the FDE pointer encoding
+              rename_i enc henc
+              obtain ⟨⟨a, r1⟩, h1, h2⟩ := bind_eq_ok h
+              cases h2
+              obtain ⟨b', x, bx, hbx, hvalid, ho, hal, hind, hb, hop, ea⟩ :=
+                setloc_ptr_sound (hsz (by rw [henc]; simp)) h1
+              subst hbx; subst ea
+              exact ⟨_ :: bx, rfl, Encodes.setLocEncoded enc b' x bx henc hvalid ho hal hind (hsz (by rw [henc]; simp)) hb hop⟩
+            · -- plain address
+              rename_i hnone
+              obtain ⟨⟨a, r1⟩, h1, h2⟩ := bind_eq_ok h
+              cases h2
+              obtain ⟨pre, hp, hs, he⟩ := address_sound h1
+              subst hp
+              exact ⟨_ :: pre, rfl, Encodes.setLoc _ _ hnone hs he⟩
+          · -- DW_CFA_AARCH64_negate_ra_state: only for the AArch64 vendor
+            split at h
+            · rename_i hv
+              cases h
+              exact ⟨[_], rfl, Encodes.negateRaState hv⟩
+            · cases h
+
+/-- every operand C05's Spec encoder `Frame.encodeOperand` produces is an `Operand` here (the
+relation additionally covers `sleb128` and padded LEB128) -/
+theorem operand_of_encodeOperand {e : Endian} {enc asz x : Nat} {bytes : Bytes}
+    (h : Frame.encodeOperand e enc asz x = some bytes) : Operand e asz enc x bytes := by
+  unfold Frame.encodeOperand CfiEntry.peFormat at h
+  simp only at h
+  split at h
+  · rename_i hf
+    split at h
+    · rename_i hc
+      cases h
+      exact .absptr x _ hf hc.1 ⟨rfl, by rw [Ints.pow256]; exact hc.2⟩
+    · cases h
+  · split at h
+    · rename_i hf
+      split at h
+      · rename_i hx
+        cases h
+        obtain ⟨h1, h2, h3, _⟩ := Leb.encodeU_spec x hx
+        exact .uleb128 x _ hf ⟨h1, h3, h2, hx⟩
+      · cases h
+    · split at h
+      · rename_i hf
+        split at h
+        · rename_i hx; cases h; exact .udata2 x _ hf ⟨rfl, by omega⟩
+        · cases h
+      · split at h
+        · rename_i hf
+          split at h
+          · rename_i hx; cases h; exact .udata4 x _ hf ⟨rfl, by omega⟩
+          · cases h
+        · split at h
+          · rename_i hf
+            split at h
+            · rename_i hx; cases h; exact .udata8 x _ hf ⟨rfl, by omega⟩
+            · cases h
+          · split at h
+            · rename_i hf
+              split at h
+              · rename_i hx
+                cases h
+                have hlt : x % 2 ^ 16 < 256 ^ 2 := by omega
+                have := Operand.sdata2 (e := e) (asz := asz) (enc := enc) (x % 2 ^ 16) _ hf ⟨rfl, hlt⟩
+                rw [← sext_eq 2 _ (by simp) hlt] at this
+                unfold CfiEntry.sext at hx
+                rw [hx] at this
+                exact this
+              · cases h
+            · split at h
+              · rename_i hf
+                split at h
+                · rename_i hx
+                  cases h
+                  have hlt : x % 2 ^ 32 < 256 ^ 4 := by omega
+                  have := Operand.sdata4 (e := e) (asz := asz) (enc := enc) (x % 2 ^ 32) _ hf ⟨rfl, hlt⟩
+                  rw [← sext_eq 4 _ (by simp) hlt] at this
+                  unfold CfiEntry.sext at hx
+                  rw [hx] at this
+                  exact this
+                · cases h
+              · split at h
+                · rename_i hf
+                  split at h
+                  · rename_i hx
+                    cases h
+                    have hlt : x < 256 ^ 8 := by omega
+                    have := Operand.sdata8 (e := e) (asz := asz) (enc := enc) x _ hf ⟨rfl, hlt⟩
+                    have hse : signExtend 8 x = x := by unfold signExtend; split <;> omega
+                    rw [hse] at this
+                    exact this
+                  · cases h
+                · cases h
 
 end Gimli.Spec.Cfi
